@@ -168,13 +168,13 @@ def h_embedding(cl):
     return h
 
 
-def h_elliptical(cl, n, decorder):
+def h_elliptical(cl, n, decorder, spacing=0.001):
     """the elliptical-distance variant: real regroup_vectorized with the pair distance function replaced by FREE symbolic
     distances (any adjacency pattern), sources at distinct declinations (decorder gives their order), equal RA"""
     def h(c):
         eps = real('eps')
         c.assume(eps.e > 0)
-        rec = real_np.rec.fromrecords([(10.0, -5.0 + 0.001 * decorder[k], 30.0, 20.0, 0.0, float(k)) for k in range(n)], names=['ra', 'dec', 'a', 'b', 'pa', 'peak_flux'])
+        rec = real_np.rec.fromrecords([(10.0, -5.0 + spacing * decorder[k], 30.0, 20.0, 0.0, float(k)) for k in range(n)], names=['ra', 'dec', 'a', 'b', 'pa', 'peak_flux'])
         adj = {}
 
         def dist(r, group_recs):
@@ -189,10 +189,10 @@ def h_elliptical(cl, n, decorder):
         for i in range(n):
             for j in range(i + 1, n):
                 c.assume(real('d_%d_%d' % (i, j)).e >= 0)
-        groups = cl.regroup_vectorized(rec, eps=eps, far=1.0, dist=dist)
+        groups = cl.regroup_vectorized(rec, eps=eps, far=(1.0 if spacing < 0.1 else None), dist=dist)
         members = [[int(x) for x in g] for g in groups]
         flat = sorted(x for g in members for x in g)
-        tag = 'regroup_vectorized[n=%d,dec order %s]' % (n, list(decorder))
+        tag = 'regroup_vectorized[n=%d,dec order %s%s]' % (n, list(decorder), '' if spacing < 0.1 else ', declinations %.1f deg apart (chains longer than `far`)' % spacing)
         c.oblige(tag + ':every source in exactly one group', z3.BoolVal(flat == list(range(n))))
         # adjacency on this path: decide every pair (entailed where the code already compared it)
         for i in range(n):
@@ -258,6 +258,18 @@ def oracle_elliptical():
         s.pa, s.peak_flux = 0.0, f
         s.island, s.source = k, 0
         return s
+    # a chain longer than the pre-filter length (1 deg in declination, 0.1 deg steps, 120 arcsec circles, eps 3) and a bystander
+    chain = [mk(0.0, 3600.0 * 0.1 * k, 1.0 + k, k) for k in range(11)]
+    for s_ in chain:
+        s_.a = s_.b = 120.0
+    by = mk(7200.0, 3600.0 * 0.95, 50.0, 11)
+    by.a = by.b = 120.0
+    for order in (list(range(12)), list(reversed(range(12)))):
+        srcs_ = chain + [by]
+        groups = cl.regroup([srcs_[k] for k in order], eps=3.0)
+        sizes = sorted(len(g) for g in groups)
+        if sizes != [1, 11]:
+            return True, 'long-chain-cut', 'a chain of 11 sources 0.1 deg apart (linked pairwise, 1 deg long) plus one bystander: group sizes %s instead of [1, 11]' % sizes
     for pts in (((-70, 40), (70, 41), (0, 0)), ((-70, 40), (70, 41), (0, 80))):
         A, B, C = [mk(x, y, 1.0 + k, k) for k, (x, y) in enumerate(pts)]
         srcs = [A, B, C]
@@ -479,6 +491,9 @@ def run(rep):
             if n_ == 4 and perm[0] > 1:
                 continue
             eplans.append((h_elliptical(cl, n_, perm), dict(wall_s=300)))
+            if n_ >= 3:
+                # chains that span more than the pre-filter length `far` (default 0.5 deg) in declination
+                eplans.append((h_elliptical(cl, n_, perm, spacing=0.6), dict(wall_s=300)))
     edone = False
     for st, res in core.explore_many(eplans, workers=16):
         rep.stats(st)
